@@ -93,6 +93,7 @@ Definition Sp (d : nat) (mx : bool) (b : board) : Prop := Good d b /\ maximize (
    The key does not contain the side to move, hence the side condition. *)
 Hypothesis key_det_chess : forall p q alpha beta d v w,
   Good d p -> Good d q -> hash p = hash q -> maximize (turn p) = maximize (turn q) ->
+  clock_tag p d = clock_tag q d ->
   Search.ab T rook_t bishop_t d p alpha beta (maximize (turn p)) = Ok (v, p) ->
   Search.ab T rook_t bishop_t d q alpha beta (maximize (turn q)) = Ok (w, q) -> v = w.
 
@@ -117,11 +118,12 @@ Proof.
   assert (Hb : b = b') by exact (f_equal (fun k : skey => snd (fst (fst (fst k)))) HE).
   assert (Hdd : d = d') by exact (f_equal (fun k : skey => snd (fst (fst k))) HE).
   assert (Hmx : mx = mx') by exact (f_equal (fun k : skey => snd (fst k)) HE).
+  assert (Hck : clock_tag p d = clock_tag p' d') by exact (f_equal (fun k : skey => snd k) HE).
   subst a' b' d'. rewrite <- Hmx. rewrite <- Hmx in Hm'. clear Hmx.
   assert (Hpq : maximize (turn p) = maximize (turn p')) by (rewrite Hm, Hm'; reflexivity).
   pose proof (L_ab_link d p a b (maximize (turn p)) HG) as H1.
   pose proof (L_ab_link d p' a b (maximize (turn p')) HG') as H2.
-  pose proof (key_det_chess p p' a b d _ _ HG HG' Hh Hpq H1 H2) as HE'.
+  pose proof (key_det_chess p p' a b d _ _ HG HG' Hh Hpq Hck H1 H2) as HE'.
   rewrite Hm in HE'. rewrite Hm' in HE'. exact HE'.
 Qed.
 
@@ -279,13 +281,13 @@ Example cache_ix_hypotheses_satisfiable :
   (forall k b v b', SIx_Good k b -> score example_table rook_ref bishop_ref b (turn b) (N.of_nat k) = Ok (v, b') ->
      (I16_MIN < v < I16_MAX)%Z) /\
   (forall p q alpha beta d v w, SIx_Good d p -> SIx_Good d q -> hash p = hash q ->
-     maximize (turn p) = maximize (turn q) ->
+     maximize (turn p) = maximize (turn q) -> clock_tag p d = clock_tag q d ->
      Search.ab example_table rook_ref bishop_ref d p alpha beta (maximize (turn p)) = Ok (v, p) ->
      Search.ab example_table rook_ref bishop_ref d q alpha beta (maximize (turn q)) = Ok (w, q) -> v = w).
 Proof.
   destruct ix_hypotheses_satisfiable as [H1 [H2 [H3 [H4 H5]]]].
   split; [exact H1|]. split; [exact H2|]. split; [exact H3|]. split; [exact H4|]. split; [exact H5|].
-  intros p q alpha beta d v w [_ ->] [_ ->] _ _ Hv Hw. rewrite Hv in Hw. apply SL_Ok_inj in Hw.
+  intros p q alpha beta d v w [_ ->] [_ ->] _ _ _ Hv Hw. rewrite Hv in Hw. apply SL_Ok_inj in Hw.
   exact (f_equal fst Hw).
 Qed.
 
